@@ -131,6 +131,28 @@ class Hoist(ast.NodeTransformer):
         return node
 
 
+NEG = {ast.Eq: ast.NotEq, ast.NotEq: ast.Eq, ast.Is: ast.IsNot, ast.IsNot: ast.Is, ast.In: ast.NotIn, ast.NotIn: ast.In}
+
+
+class InvertIf(ast.NodeTransformer):
+    """if t: A else: B  ->  if not t: B else: A  for every two-armed `if` (==/!=, is/is not, in/not in negated in place;
+    ordering comparisons are wrapped in `not` because of NaN)"""
+
+    def visit_If(self, node):
+        self.generic_visit(node)
+        if not node.orelse:
+            return node
+        t = node.test
+        if isinstance(t, ast.Compare) and len(t.ops) == 1 and type(t.ops[0]) in NEG:
+            nt = ast.Compare(left=t.left, ops=[NEG[type(t.ops[0])]()], comparators=t.comparators)
+        elif isinstance(t, ast.UnaryOp) and isinstance(t.op, ast.Not):
+            nt = t.operand
+        else:
+            nt = ast.UnaryOp(op=ast.Not(), operand=t)
+        node.test, node.body, node.orelse = nt, node.orelse, node.body
+        return node
+
+
 def transformed(kind):
     root = pathlib.Path("/repo/verde")
     overlay = {}
@@ -146,6 +168,8 @@ def transformed(kind):
             tree = ast.fix_missing_locations(Renamer().visit(tree))
         if kind == "commute":
             tree = ast.fix_missing_locations(Commute().visit(tree))
+        if kind == "invert-if":
+            tree = ast.fix_missing_locations(InvertIf().visit(tree))
         if kind == "hoist":
             tree = ast.fix_missing_locations(Hoist().visit(tree))
         if kind == "keywordize":
@@ -159,7 +183,7 @@ def transformed(kind):
 
 def main():
     bad = 0
-    for kind in ("format", "rename", "commute", "keywordize", "hoist"):
+    for kind in ("format", "rename", "commute", "keywordize", "hoist", "invert-if"):
         overlay = transformed(kind)
         for src in overlay.values():
             compile(src, "<variant>", "exec")
